@@ -385,9 +385,11 @@ class Collector:
 
     def _finalize(self):
         _debug(f'{_thread_name()}: Joining {self._reader}')
-        self._reader.join()
-        _debug(f'{_thread_name()}: Joining {self._hashers}')
-        self._hashers.join()
+        try:
+            self._reader.join()
+        finally:
+            _debug(f'{_thread_name()}: Joining {self._hashers}')
+            self._hashers.join()
         _debug(f'{_thread_name()}: hash_queue has {self._hashers.hash_queue.qsize()} items left')
 
     @property
